@@ -15,7 +15,7 @@ EXPLANATION = (
     "never), the sequencer's admission predicate over all leaf shapes and its selection of exactly the maximal admitted "
     "suffix on every child list up to the bound, the repetition guard in finalize, the discarded-terms branch of fold, "
     "and the identical delegation of Glob and Any.")
-RULES = "C09.verdict (TABLE), C09.admit + C09.suffix (EFFECT), C09.repeat (TABLE), C09.fold (TABLE), C09.sibling (SIBLING)"
+RULES = "C09.verdict (TABLE), C09.admit + C09.suffix (EFFECT), C09.repeat (TABLE), C09.fold (TABLE), C09.sibling (SIBLING), C09.upper (TABLE on a grid: range operations never lose an upper bound)"
 
 WHEN = "query::When"
 REF_AND = lambda a, b: "Never" if "Never" in (a, b) else ("Sometimes" if "Sometimes" in (a, b) else "Always")
@@ -38,6 +38,7 @@ def run(ctx):
     rule_repeat(F, R)
     rule_fold(F, R)
     rule_sibling(F, R)
+    rule_upper_bound(F, R)
 
 
 def rule_when(F, R):
@@ -245,3 +246,38 @@ def rule_sibling(F, R):
 def _n(v):
     v = strip(v)
     return v.name if isinstance(v, Sym) else repr(v)
+
+
+def rule_upper_bound(F, R):
+    """A depth variance is exhaustive iff it has no upper bound, so a range operation that loses an upper bound the
+    true interval has produces a false `always`.  Same grid and argument as C10.range (each bound is one of finitely
+    many low-degree polynomial expressions chosen by the operands' shapes)."""
+    import itertools
+    I = Interp(F)
+    grid = c10.range_grid()
+    BVR = c10.BVR
+    add = lambda x, y: None if x is None or y is None else x + y
+    mul = lambda x, y: None if x is None or y is None else x * y
+    ops = {
+        "conjunction": (F.find("<%s as token::variance::ops::Conjunction>::conjunction" % BVR, trait_ref="Conjunction>"), add),
+        "product": (F.find("<%s as token::variance::ops::Product>::product" % BVR, trait_ref="Product>"), mul),
+    }
+    n = 0
+    for opname, (it, f) in ops.items():
+        for (an, (a, ar)), (bn, (b, br)) in itertools.product(grid.items(), repeat=2):
+            got = c10.decode_range(tabulate.single(I.explore(lambda: I.call_item(it, [a, b]))))
+            want_hi = f(ar[1], br[1])
+            n += 1
+            good = got is not None and (got[1] is not None or want_hi is None)
+            if good:
+                R.ok("C09.upper", "%s/%s,%s" % (opname, an, bn), "upper bound kept" if want_hi is not None else "unbounded", it.where(), sample=(n % 131 == 0))
+            else:
+                R.fail("C09.upper", "%s/%s,%s" % (opname, an, bn), "%s of the ranges %s and %s is reported as %s: the upper bound %s is lost, "
+                       "so a pattern of bounded depth would be judged `always` exhaustive (`<<*/:1,2>:0,2>*`)" % (opname, ar, br, got, want_hi), it.where())
+    pn = F.find("<%s as token::variance::ops::Product>::product" % BVR, trait_ref="Product<std::num::NonZero")
+    for (an, (a, ar)), k in itertools.product(grid.items(), (1, 2, 3)):
+        got = c10.decode_range(tabulate.single(I.explore(lambda: I.call_item(pn, [a, k]))))
+        n += 1
+        R.check(got is not None and (got[1] is not None or ar[1] is None), "C09.upper", "product-n/%s x %d" % (an, k), "upper bound kept", pn.where(),
+                fail_msg="the range %s repeated %d times is reported as %s: its upper bound is lost" % (ar, k, got))
+    R.floor("C09.upper", "range cells", n, 300)
